@@ -91,6 +91,8 @@ def eq(x, y):
         try:
             if np.ndim(x) == 0 and isinstance(y, (tuple, list, dict, np.ndarray, pd.DataFrame, pd.Series)):
                 return False # a scalar never equals a container (x == y would broadcast)
+            if isinstance(x, np.timedelta64) != isinstance(y, np.timedelta64) and isinstance(x if isinstance(y, np.timedelta64) else y, (int, float, np.number, np.bool_)):
+                return False # a duration never equals a bare number (numpy would read the number in the timedelta's own unit)
             res = x == y
             return np.all(res.__array__()) if hasattr(res, '__array__') else res
         except Exception:
